@@ -87,8 +87,8 @@ const int pwd_vp_cell = 78;
 // the protected static entry points of promise<T> (meant for derived promise classes): set() / resolve()
 template <typename T>
 struct derived_promise : promise<T> {
-    template <typename... A> static void do_set(future<T> *f, A &&...a) { promise<T>::set(f, std::forward<A>(a)...); }
-    static void do_resolve(future<T> *f) { promise<T>::resolve(f); }
+    template <typename... A> static void do_set(future<T> *f, A &&...a) { promise<T>::VN_promise_set(f, std::forward<A>(a)...); }
+    static void do_resolve(future<T> *f) { promise<T>::VN_promise_resolve(f); }
 };
 
 // an argument for promise::bind() whose decay-copy into the bound tuple throws (bind-end throw)
@@ -175,7 +175,7 @@ struct Scn {
                 if (w.size() >= 5 && w[2] == "cas-" && w[3] == "slot" && w[4].rfind("ready>", 0) == 0) refused[t] = 1;
             }
         }
-        std::string d = "p head=" + pname(fut->_awaiter.raw());
+        std::string d = "p head=" + pname(fut->VN_future_common__awaiter.raw());
         for (std::size_t i = 0; i < wkind.size(); i++) {
             if (wkind[i].empty()) continue;
             awaiter *n = nullptr;
@@ -533,8 +533,8 @@ struct Scn {
         if (prom->get_id() != static_cast<const void *>(&*fut)) anomaly("get_id() of the owning promise");
         if (!*prom || !static_cast<bool>(*prom)) anomaly("operator bool / operator! of the owning promise");
         pending_accessors();
-        S().name_obj(&fut->_awaiter, "slot");
-        S().name_obj(&prom->_owner, "owner");
+        S().name_obj(&fut->VN_future_common__awaiter, "slot");
+        S().name_obj(&prom->VN_promise__owner, "owner");
         S().name_ptr(&awaiter::instance, "inst");
         S().name_ptr(&awaiter::disabled, "ready");
         obs_count.assign(threads.size(), 0);
@@ -618,13 +618,13 @@ struct Scn {
                 else return const_cast<typename FT::reference>(std::as_const(*fut).value());
             });
             if (cval != val) anomaly("const value() " + cval + " vs value() " + val);
-            bool hv = fut->_state != future_common::State::not_value;
+            bool hv = fut->VN_future_common__state != future_common::State::not_value;
             if (!*fut != !hv) anomaly("operator! disagrees with the state");
             if (static_cast<bool>(*fut) != hv) anomaly("operator bool disagrees with the state");
             if (fut->initialized()) anomaly("initialized() of a resolved future");
         }
         factories();
-        log("final " + st + " " + val + " hv=" + (fut->ready() ? (fut->_state != future_common::State::not_value ? "1" : "0") : "-"));
+        log("final " + st + " " + val + " hv=" + (fut->ready() ? (fut->VN_future_common__state != future_common::State::not_value ? "1" : "0") : "-"));
         for (std::size_t i = 0; i < threads.size(); i++)
             if (threads[i][0] == "w") log("waiter w" + std::to_string(i) + " released=" + std::to_string(obs_count[i]));
         if (fut->pending()) { log("end"); std::cout.flush(); _exit(0); }   // cannot destroy a pending future
